@@ -51,7 +51,7 @@ Docs1 ==
     [] Family \in {"acc11", "edit11"} -> AtomsSmall \cup {sTrue, s12, im1, f1, fm0, u2p53p1, sE, sSmile, sCtl, sQuote} \cup RepL1 \cup ExtraDocs
                                          \cup {Arr(<<u256, Null, f15>>), Arr(<<Arr(<<u1, sab>>), Obj(<< <<ka, Null>> >>)>>),
                                                Obj(<< <<kB, u1>>, <<ka, Arr(<<sE, f15>>)>> >>), Obj(<< <<kE, Obj(<< <<kab, Null>>, <<kb, sQuote>> >>)>> >>)}
-    [] Family \in {"pairs11"} -> {Null, True, u1, i1, f1, fm0, u0, sab, s12, sE, u2p53p1, f2p53} \cup RepL1
+    [] Family \in {"pairs11"} -> {Null, True, u1, i1, f1, fm0, u0, sa, sab, Str(<<97, 32, 98>>), Str(<<97, 33>>), s12, sE, u2p53p1, f2p53} \cup RepL1
                                    \cup {Arr(<<u1>>), Arr(<<f1>>), Arr(<<u1, u1, sab>>), Obj(<< <<ka, u1>>, <<kb, Arr(<<f15>>)>> >>), Obj(<< <<ka, f1>> >>),
                                          Obj(<< <<ka, Arr(<<u1, u2>>)>> >>), Obj(<< <<ka, u1>> >>), Obj(<< <<ka, u2>>, <<kb, Null>> >>), Arr(<<u1, f1, u2>>),
                                          Arr(<<Arr(<<u1, u2>>), u2>>), Arr(<<Arr(<<u1, u1, u2>>)>>)}
